@@ -43,9 +43,24 @@ def budget_exhausted(fn, path):
         if t["op"] != "br" or "cond" not in t:
             continue
         c = fn.defs.get(t["cond"].get("id")) if t["cond"].get("k") == "v" else None
-        if c is None or c["op"] != "icmp" or c["pred"] not in ("eq", "ne"):
+        if c is None or c["op"] != "icmp":
             continue
         a, z = c["ops"]
+        if c["pred"] in ("ult", "ne", "slt", "uge", "eq", "sge") and a.get("k") == "v" and z.get("k") == "v":
+            # index form: `i < dmax` fails (the index, a loop-header phi, has reached the declared size)
+            pa, pz = fn.defs.get(a["id"]), fn.defs.get(z["id"])
+            idx, bound = (a, z) if (pa is not None and pa["op"] == "phi" and pa["_bb"] in fn.loops) else ((z, a) if (pz is not None and pz["op"] == "phi" and pz["_bb"] in fn.loops) else (None, None))
+            if idx is not None and c["pred"] != "eq":
+                o_ = bound
+                while o_.get("k") == "v" and fn.defs.get(o_["id"], {}).get("op") in ("zext", "trunc"):
+                    o_ = fn.defs[o_["id"]]["ops"][0]
+                if o_.get("k") == "v" and o_["id"] == mp["id"]:
+                    stay = t["t"] if c["pred"] in ("ult", "ne", "slt") else t["f"]
+                    if s_ != stay:
+                        return True
+            continue
+        if c["pred"] not in ("eq", "ne"):
+            continue
         if not (z.get("k") == "c" and z["v"] == 0 and a.get("k") == "v"):
             continue
         ph = fn.defs.get(a["id"])
